@@ -19,5 +19,6 @@ Conforms == LET o == Outcome(d) IN
         /\ Rec.ages_rounded             \* rounded to the precision implied by the spacing (table ages too)
         /\ Rec.values_in_unit_interval  \* finite, within [0, 1], every requested feature present
         /\ Rec.one_param_set_each       \* one reported set of individual parameters per simulated individual
+        /\ Rec.design_reusable          \* the caller's design is untouched and a second simulation honours it (same seed: same cohort)
    /\ Rec.outcome = "refused" => Rec.nothing_generated     \* refused before anything is drawn
 =============================================================================
